@@ -100,6 +100,10 @@ fn build(limited: bool) -> std::sync::Arc<HostCollection> {
 
 pub struct Framing;
 impl Group for Framing {
+    // a real server / real sockets with read timeouts: a failure counts if it shows again when the same case is re-run
+    fn timing_sensitive(&self) -> bool {
+        true
+    }
     fn name(&self) -> &'static str {
         "c08.conn"
     }
